@@ -34,6 +34,10 @@ DEFAULT_OPTS = {
     "polya_requirement": None,
     "no_model_construction": False,
     "clean_start": False,
+    "list_names": None,          # bam_list only: None (distinct '#E<i>' headers) | "dup" (every header is '#DUP') | "blank" (empty
+                                 # lines instead of headers: folder names are chosen by IsoQuant)
+    "labels": None,              # None | "custom" (--labels / '<path>:<label>' / YAML labels) | "omit" (YAML without labels)
+    "group_table_fmt": None,     # None | "<read col>:<group col>:<delim>[:gz]" alternative layout of the --read_group file: table
     "extra": [],
     "exp_order": None,           # permutation of experiment indices
     "only_exp": None,            # run just this experiment index (stand-alone golden for C10)
@@ -80,6 +84,38 @@ def build_inputs(spec, opts, indir):
     return truth, paths
 
 
+def alt_group_table(table, fmt, indir):
+    """the same read -> group table in another documented layout (file:<path>:<read col>:<group col>:<delim>, .gz):
+    extra columns, comment and blank lines; returns the option value after 'file:'"""
+    if not fmt:
+        return table
+    parts = fmt.split(":")
+    rc, gc, delim = int(parts[0]), int(parts[1]), {"tab": "\t", "comma": ",", "semi": ";", "space": " "}[parts[2]]
+    gz = len(parts) > 3 and parts[3] == "gz"
+    ncol = max(rc, gc) + 2
+    lines = ["# read table written by the harness\n", "\n"]
+    with open(table) as f:
+        for k, l in enumerate(f):
+            rid, gid = l.rstrip("\n").split("\t")
+            cols = ["x%d" % (k % 7)] * ncol
+            cols[rc], cols[gc] = rid, gid
+            lines.append(delim.join(cols) + "\n")
+            if k % 11 == 3:
+                lines.append("#comment line\n")
+    path = os.path.join(indir, "groups_alt.%s%s" % ("tsv" if delim == "\t" else "txt", ".gz" if gz else ""))
+    if gz:
+        import gzip as _gz
+        with open(path, "wb") as raw:
+            with _gz.GzipFile(fileobj=raw, mode="wb", mtime=0) as f:
+                f.write("".join(lines).encode())
+    else:
+        with open(path, "w") as f:
+            f.writelines(lines)
+    if delim == "\t":
+        return "%s:%d:%d" % (path, rc, gc)
+    return "%s:%d:%d:%s" % (path, rc, gc, delim)
+
+
 def make_argv(truth, paths, opts, outdir, indir):
     """returns (argv, prefixes)"""
     o = full_opts(opts)
@@ -107,18 +143,28 @@ def make_argv(truth, paths, opts, outdir, indir):
     mode = o["input_mode"]
     if mode == "auto":
         mode = "bam" if len(exps) == 1 and o["only_exp"] is None and len(paths["exps"]) == 1 else "yaml"
+    def lab(b):
+        bn = os.path.basename(b)[:-4]
+        return (bn.replace(".f", "-rep") + "x") if o["labels"] == "custom" else bn
     if mode == "bam":
         argv += ["--bam"] + exps[0]["bams"]
+        if o["labels"] == "custom":
+            argv += ["--labels"] + [lab(b) for b in exps[0]["bams"]]
         if exps[0].get("illumina"):
             argv += ["--illumina_bam"] + exps[0]["illumina"]
         prefixes = ["OUT"]
     elif mode == "bam_list":
         lst = os.path.join(indir, "bams.list")
         with open(lst, "w") as f:
-            for e in exps:
-                f.write("#%s\n" % e["name"])
+            for ei, e in enumerate(exps):
+                if o["list_names"] == "dup":
+                    f.write("#DUP\n")
+                elif o["list_names"] == "blank":
+                    f.write("\n" if ei else "")
+                else:
+                    f.write("#%s\n" % e["name"])
                 for b in e["bams"]:
-                    f.write(b + "\n")
+                    f.write(b + (":" + lab(b) if o["labels"] == "custom" else "") + "\n")
         argv += ["--bam_list", lst]
         prefixes = [e["name"] for e in exps]
     else:
@@ -126,20 +172,22 @@ def make_argv(truth, paths, opts, outdir, indir):
         with open(y, "w") as f:
             f.write("[\n  {\"data format\": \"bam\"}")
             for e in exps:
-                f.write(",\n  {\"name\": \"%s\", \"long read files\": [%s], \"labels\": [%s]%s}" % (
+                f.write(",\n  {\"name\": \"%s\", \"long read files\": [%s]%s%s}" % (
                     e["name"], ", ".join('"%s"' % b for b in e["bams"]),
-                    ", ".join('"%s"' % os.path.basename(b)[:-4] for b in e["bams"]),
+                    "" if o["labels"] == "omit" else ', "labels": [%s]' % ", ".join('"%s"' % lab(b) for b in e["bams"]),
                     (', "illumina bam": [%s]' % ", ".join('"%s"' % b for b in e["illumina"])) if e.get("illumina") else ""))
             f.write("\n]\n")
         argv += ["--yaml", y]
         prefixes = [e["name"] for e in exps]
     rg = o["read_group"]
     if rg == "tag":
-        argv += ["--read_group", "tag:RG"]
+        argv += ["--read_group", "tag:%s" % (s.get("group_tag") or "RG")]
+    elif rg == "tag_default":
+        argv += ["--read_group", "tag"]
     elif rg == "read_id":
         argv += ["--read_group", "read_id:_"]
     elif rg == "file":
-        argv += ["--read_group", "file:%s" % paths["group_table"]]
+        argv += ["--read_group", "file:%s" % alt_group_table(paths["group_table"], o["group_table_fmt"], indir)]
     elif rg == "file_name":
         argv += ["--read_group", "file_name"]
     for flag, key in (("--high_memory", "high_memory"), ("--keep_tmp", "keep_tmp"), ("--no_gzip", "no_gzip"),
@@ -262,10 +310,31 @@ def crash_resume(args):
     try:
         indir = os.path.join(rundir, "in")
         truth, paths = build_inputs(args.get("spec"), args.get("opts"), indir)
-        r1 = run_once(rundir, truth, paths, args.get("opts"), sched=args.get("sched"), fault=args["fault"],
+        fault = dict(args["fault"])
+        if "index" not in fault:
+            # stage-relative fault {"stage": name | None, "frac": 0..1}: a fault-free probe run of the same job (same schedule)
+            # gives the event labels; the kill index is the frac-quantile of the crashable events of that stage
+            from .checks import c07 as _c07
+            probe = os.path.join(rundir, "probe")
+            before = set(os.listdir(indir))
+            r0 = run_once(rundir, truth, paths, args.get("opts"), sched=args.get("sched"), fault=None,
+                          bufsize=args.get("bufsize", 8192), logname="probe.log", outdir=os.path.join(probe, "out"),
+                          home=os.path.join(probe, "home"))
+            labels = simrun.event_labels(r0["trace"])
+            st = _c07.stages_of(labels)
+            k0 = _c07.first_crashable(labels)
+            cand = [seq for seq, slot, label, occ in labels if seq >= k0 and (not fault.get("stage") or st[seq] == fault["stage"])]
+            if not cand:
+                cand = [seq for seq, slot, label, occ in labels if seq >= k0] or [0]
+            fault["index"] = cand[min(len(cand) - 1, int(float(fault.get("frac", 0.5)) * len(cand)))]
+            shutil.rmtree(probe, ignore_errors=True)
+            for fn in set(os.listdir(indir)) - before:
+                # side products of the probe next to the inputs (reference index) - the real run must create them itself
+                os.remove(os.path.join(indir, fn))
+        r1 = run_once(rundir, truth, paths, args.get("opts"), sched=args.get("sched"), fault=fault,
                       bufsize=args.get("bufsize", 8192), logname="crash.log")
         out = {"crash": {"crashed": r1["crashed"], "exit": r1["exit"], "label": r1["crash_label"],
-                         "events": r1["events"], "harness_error": r1["harness_error"]}}
+                         "events": r1["events"], "harness_error": r1["harness_error"], "index": fault.get("index")}}
         if not r1["crashed"]:
             # fault index beyond the run: nothing to resume
             res = summarize(r1, rundir, truth)
@@ -502,6 +571,33 @@ def cache_session(args):
                         ar["db_digest"] = "unreadable:%s" % type(e).__name__
                     ar["fresh_digest"] = _fresh_digest(paths["gtf"], bool(o.get("complete_genedb")), rundir)
                     ar["db_foreign"] = not used[-1].startswith(outdir)
+                if used and not used[-1].startswith(outdir):
+                    # did this actor validate the foreign database (getmtime) after another actor had already started to modify
+                    # it, against a registration read before that actor registered the new state?
+                    tl = None
+                    for dpath, dname in dirs:
+                        if used[-1].startswith(dpath + os.sep):
+                            tl = dname + used[-1][len(dpath):]
+                    cfg_read = check = None
+                    mod_start = rereg = None
+                    for e in r["trace"]:
+                        if e[0] != "ev":
+                            continue
+                        seq, slot, label = e[1], e[2], e[3]
+                        kind_path = label.split(":", 1)[1]
+                        if slot == ai:
+                            if kind_path.startswith("open:r:") and kind_path.endswith("db_config.json") and check is None:
+                                cfg_read = seq
+                            if tl and kind_path == "getmtime:" + tl and check is None:
+                                check = seq
+                        else:
+                            if tl and kind_path in ("remove:" + tl, "open:w:" + tl) and mod_start is None:
+                                mod_start = seq
+                            if kind_path.startswith("rename:") and kind_path.endswith("db_config.json") and mod_start is not None \
+                                    and rereg is None:
+                                rereg = seq
+                    ar["adopted_modified"] = bool(check is not None and mod_start is not None and mod_start < check and
+                                                  (rereg is None or (cfg_read is not None and cfg_read < rereg)))
                 sres["actors"].append(ar)
             # cache files well-formed at the end of the step
             cfgdir = os.path.join(home, ".config", "IsoQuant")
@@ -541,15 +637,22 @@ def reuse(args):
         r1 = run_once(rundir, truth, paths, o1, sched=args.get("sched"), bufsize=args.get("bufsize", 8192), logname="first.log")
         chroms = [c for c, _ in truth["chroms"]]
 
+        multi = len(r1["prefixes"]) > 1
+
         def norm(outdir):
+            """single experiment: {file class: digest}; several: {"<folder>/<file class>": digest} (combined_* tables carry the
+            experiment names as column titles and are left out)"""
             files, _ = outputs.collect(outdir, chroms)
             out = {}
             for k, v in files.items():
                 v = b"\n".join(l for l in v.split(b"\n") if not re.match(rb"^# \S+ IsoQuant generated GTF$", l))
-                out[common_file_class(k)] = hashlib.sha256(v).hexdigest()
+                if not multi:
+                    out[common_file_class(k)] = hashlib.sha256(v).hexdigest()
+                elif "/" in k:
+                    out[k.split("/")[0] + "/" + common_file_class(k)] = hashlib.sha256(v).hexdigest()
             return out
         d1 = norm(r1["outdir"])
-        res = {"first": {"exit": r1["exit"], "digests": d1, "events": r1["events"]}}
+        res = {"first": {"exit": r1["exit"], "digests": d1, "events": r1["events"], "prefixes": r1["prefixes"]}}
         if r1["exit"] != 0:
             res["first"]["log_tail"] = _log_tail(rundir, "first.log")
             return res
@@ -564,7 +667,7 @@ def reuse(args):
                 while j < len(argv) and not argv[j].startswith("-"):
                     j += 1
                 del argv[i:j]
-        argv += ["--read_assignments", os.path.join(r1["outdir"], r1["prefixes"][0], "aux", r1["prefixes"][0] + ".save")]
+        argv += ["--read_assignments"] + [os.path.join(r1["outdir"], p, "aux", p + ".save") for p in r1["prefixes"]]
         r2 = run_once(rundir, truth, paths, o2, sched=args.get("sched2") or args.get("sched"), bufsize=args.get("bufsize", 8192),
                       argv_override=argv, logname="stdout.log", outdir=out2)
         res["second"] = {"exit": r2["exit"], "digests": norm(out2), "events": r2["events"], "trace_sha": simrun.trace_digest(r2["trace"]),
@@ -650,7 +753,7 @@ def _cachefn_actor(persona, rundir, home):
     from src import read_mapper
     problems = []
     a = argparse.Namespace(reference=persona["reference"], data_type=persona["data_type"], genedb=persona["genedb"],
-                           clean_start=False, output=persona["out"], index=None)
+                           clean_start=False, output=persona["out"], index=None, complete_genedb=False)
     isoquant.set_configs_directory(a)
     kmer = read_mapper.KMER_SIZE[a.data_type]
 
@@ -685,6 +788,23 @@ def _cachefn_actor(persona, rundir, home):
         t = read_tag(bed)
         if t != "bed|%s" % gdb_tag:
             problems.append("BED cache returned %s with content %r for annotation tag %s" % (bed, t, gdb_tag))
+    if persona.get("db2gtf"):
+        # the db -> GTF direction of the annotation cache (used for the STARlong aligner); the converter is a stub that
+        # writes the tag of the database it was given, the cache logic (convert_db) is the real code
+        from src import gtf2db as _g
+
+        def _stub_db2gtf(db, gtf, _=None):
+            with open(gtf, "w") as f:
+                f.write("gtf|%s\n" % tag_of(db))
+        real = _g.db2gtf
+        _g.db2gtf = _stub_db2gtf
+        try:
+            gtf = _g.convert_db_to_gtf(a)
+        finally:
+            _g.db2gtf = real
+        t = read_tag(gtf)
+        if t != "gtf|%s" % gdb_tag:
+            problems.append("annotation cache (db2gtf) returned %s with content %r for database tag %s" % (gtf, t, gdb_tag))
     idx_tag = read_tag(idx)
     bed_tag = read_tag(bed)
     for fq in persona["fastqs"]:
@@ -722,10 +842,14 @@ def cache_functions(args):
                 with open(p, "w") as f:
                     f.write("%s %d content\n" % (kind, i))
                 files[(kind, i)] = p
+                if kind in (args.get("same_mtime") or ()):
+                    # files delivered with whole-second, identical time stamps (unpacked archive, cp -p, rsync -t)
+                    os.utime(p, (1700000000, 1700000000))
         personas = []
         for k, pr in enumerate(args["personas"]):
             personas.append({"reference": files[("ref", pr["ref"])], "data_type": pr["data_type"],
                              "genedb": files[("gdb", pr["genedb"])], "fastqs": [files[("fq", q)] for q in pr["fastqs"]],
+                             "db2gtf": pr.get("db2gtf", False),
                              "out": os.path.join(rundir, "out_%d" % k)})
         chooser = simrun.make_chooser(args.get("sched"))
         dirs = [(rundir, "<run>"), (home, "<home>")]
